@@ -15,6 +15,7 @@ import (
 // The UDP side is silent unless UDPReply is set.
 type KDC struct {
 	Port      int
+	ReplyFor  func(request []byte) []byte // UDP: when set, the reply (without length prefix) is computed from the request datagram
 	Behaviour string
 	Reply     []byte
 	UDPReply  bool
@@ -142,7 +143,11 @@ func (k *KDC) serveUDP() {
 		k.mu.Lock()
 		k.udpRx = append(k.udpRx, append([]byte(nil), buf[:n]...))
 		k.mu.Unlock()
-		if k.UDPReply && len(k.Reply) >= 4 {
+		if k.ReplyFor != nil {
+			if rep := k.ReplyFor(buf[:n]); rep != nil {
+				k.udp.WriteToUDP(rep, addr)
+			}
+		} else if k.UDPReply && len(k.Reply) >= 4 {
 			k.udp.WriteToUDP(k.Reply[4:], addr)
 		}
 	}
